@@ -7,6 +7,10 @@
 (* prints it whenever the last call is a query: every distinct way the     *)
 (* model can answer a query is replayed on the real chromosomes.  `pred`   *)
 (* is what the model predicts for that last query.                         *)
+(* Histories that are equivalent in the model need not be equivalent in a  *)
+(* broken implementation (clone before or after the first query), so the   *)
+(* pattern modes PC*/PM* keep `hist` in the VIEW and emit every call       *)
+(* sequence of the shapes given by PhaseNext.                              *)
 (***************************************************************************)
 EXTENDS Cache, Json
 
